@@ -168,6 +168,45 @@ def block_step_rule(rep, u, own_file):
     return n
 
 
+def bulk_advance_rule(rep, u, own_file):
+    """update(): the whole blocks of the caller's data are compressed in place: transform(ctx, ..., p, p + E), and the cursor then
+    moves on: p += E'.  The two extents are the same expression - otherwise blocks are compressed twice or bytes behind the
+    caller's data are read."""
+    n = 0
+    for fn in u.function_list:
+        if fn.relfile() != own_file or not fn.has_cfg or not fn.name.endswith("_update") or "hmac" in fn.name:
+            continue
+        for bid in fn.reachable_blocks():
+            elems = fn.blocks[bid].elems
+            for i, e in enumerate(elems):
+                calls = [x for x, ps in core.walk(e) if x.get("k") == "call" and "transform" in (x.get("fn") or "")]
+                for c in calls:
+                    ptrs = [a for a in c["args"] if "t" in a and u.type(a["t"])["k"] == "ptr"]
+                    if len(ptrs) < 3:
+                        continue
+                    p_, q_ = strip_casts(ptrs[-2]), strip_casts(ptrs[-1])
+                    if p_.get("k") != "ref" or not (q_.get("k") == "bin" and q_["op"] == "+" and key(strip_casts(q_["x"])) == key(p_)):
+                        continue
+                    ext = strip_casts(q_["y"])
+                    adv = None
+                    for e2 in elems[i + 1:]:
+                        if e2.get("k") == "bin" and e2["op"] == "+=" and key(strip_casts(e2["x"])) == key(p_):
+                            adv = e2
+                            break
+                    if adv is None:
+                        continue
+                    n += 1
+                    rep.functions.add(fn.name)
+                    inst = "bulk-advance:%s" % c["fn"]
+                    desc = "%s: the extent handed to %s and the advance of '%s' that follows are the same expression" % (fn.name, c["fn"], key(p_))
+                    if key(ext) == key(strip_casts(adv["y"])):
+                        rep.proved("R-AGREE", fn, inst, desc, key(ext)[:60], c.get("ln"))
+                    else:
+                        rep.violated("R-AGREE", fn, inst, desc, "blocks up to %s + %s are compressed but the cursor advances by %s" % (
+                            key(p_), key(ext)[:50], key(strip_casts(adv["y"]))[:50]), c.get("ln"))
+    return n
+
+
 def run(rep, tier):
     specs = hashes.units(tier)
     us = driver.load_units([s for (_, _, s) in specs])
@@ -190,6 +229,10 @@ def run(rep, tier):
     for (h, lab, s) in specs:
         nb += block_step_rule(rep, us[s.label], "include/" + hashes.HASHES[h]["hdr"])
     rep.floor("Streebog per-block state updates", nb, 2)
+    na = 0
+    for (h, lab, s) in specs:
+        na += bulk_advance_rule(rep, us[s.label], "include/" + hashes.HASHES[h]["hdr"])
+    rep.floor("in-place bulk compressions", na, 3)
     from props import c04_tables, c04_more
     c04_tables.run(rep, specs, us, tier)
     c04_more.run(rep, specs, us, tier)
